@@ -79,6 +79,19 @@ def shrink_candidates(t, root=True):
                 out.append(e["v"])
             for c in shrink_candidates(e["v"], False):
                 out.append({"t": "m", "m": es[:i] + [{"k": e["k"], "v": c}] + es[i + 1:]})
+    elif t["t"] == "x":
+        # a map with a non-string key (entries keyed by canonical key text): keep one such key
+        es = t.get("m", [])
+        nonstr = lambda l: any(not e["k"].startswith("s:") for e in l)
+        for i in range(len(es)):
+            rest = es[:i] + es[i + 1:]
+            if rest and nonstr(rest):
+                out.append({"t": "x", "m": rest})
+        for i, e in enumerate(es):
+            if not root:
+                out.append(e["v"])
+            for c in shrink_candidates(e["v"], False):
+                out.append({"t": "x", "m": es[:i] + [{"k": e["k"], "v": c}] + es[i + 1:]})
     elif t["t"] == "l":
         ls = t.get("l", [])
         for i in range(len(ls)):
@@ -87,7 +100,7 @@ def shrink_candidates(t, root=True):
             out.append(c0)
             for c in shrink_candidates(c0, False):
                 out.append({"t": "l", "l": ls[:i] + [c] + ls[i + 1:]})
-    if not root and t["t"] in ("m", "l"):
+    if not root and t["t"] in ("m", "l", "x"):
         out.append({"t": "s", "v": "x"})
     if not root and t["t"] in ("s", "a") and t.get("v") != "x":
         out.append({"t": "s", "v": "x"})
@@ -184,14 +197,22 @@ def corpus_run(ctx, pid):
 
 
 # ---------------------------------------------------------------- report ordering
-def harness_cases_seed(ctx, binpath, runs, seed, tagsuffix="", timeout=1800):
-    """vlib.harness_cases with an explicit seed (for the widened run)"""
+def harness_cases_seed(ctx, binpath, runs, seed, tagsuffix="", timeout=1800, crashes=None):
+    """vlib.harness_cases with an explicit seed (for the widened run).  A run (mode) whose process
+    dies — e.g. the Go runtime's `fatal error: concurrent map read and map write`, which no recover
+    can catch — does not stop the others when `crashes` (a list) is given: it is recorded there as
+    (tag, text) and the cases of the remaining runs are still judged."""
     terms, jsons = [], []
     for tag, args in runs:
         prefix = os.path.join(ctx.scratch, "cases_%s%s" % (tag, tagsuffix))
         rc, out = vlib.sh([binpath, "-seed", str(seed), "-out", prefix] + [str(a) for a in args], timeout=timeout)
         if rc != 0:
-            return terms, jsons, "harness %s failed (rc %d):\n%s" % (tag, rc, out[-3000:])
+            msg = "harness %s failed (rc %d):\n%s" % (tag, rc, out[-3000:])
+            if crashes is None:
+                return terms, jsons, msg
+            first = [l for l in out.splitlines() if l.startswith(("fatal error", "panic:"))]
+            crashes.append((tag, (first[0] + "\n" if first else "") + msg))
+            continue
         t = open(prefix + ".cases").read().splitlines()
         j = [json.loads(l) for l in open(prefix + ".jsonl").read().splitlines()]
         if len(t) != len(j):
@@ -234,7 +255,13 @@ def correspondence(ctx, d, binp, spec):
     items and verdict-2/oracle cases only if no verdict-1 case exists after a widened run.
     Returns (terms, jsons, bad, nontrivial_count, info_count, widened) or None on a harness error."""
     def run_and_judge(runs, seed, suffix):
-        terms, jsons, err = harness_cases_seed(ctx, binp, runs, seed, suffix)
+        crashes = []
+        terms, jsons, err = harness_cases_seed(ctx, binp, runs, seed, suffix, crashes=crashes)
+        for tag, text in crashes:
+            # the process of one mode died: reported (after the failing inputs of the other modes, if any)
+            ctx.log("harness mode %s died: %s" % (tag, text.splitlines()[0][:200]))
+            d.add({"unchecked": "harness run of mode %s: the process died (%s)" % (tag, text.splitlines()[0][:200]),
+                   "detail": text}, {"kind": "harness_crash"})
         if err:
             ctx.report({"unchecked": "harness run", "detail": err}, {"kind": "harness"}, failing_input=False)
             return None
